@@ -13,6 +13,13 @@ variable {α β : Type} [Inhabited α] [Inhabited β]
 abbrev Pos := Proofs.Pos
 abbrev Equiv {β : Type} [Inhabited β] := @Proofs.Equiv β _
 
+-- concrete tensors shared by the non-vacuity examples below
+private def nv_A : Tensor Int := ⟨[2, 3], [1, 2, 3, 4, 5, 6]⟩
+private def nv_B : Tensor Int := ⟨[3], [10, 20, 30]⟩
+private def nv_C : Tensor Int := ⟨[2, 2], [1, 2, 3, 4]⟩
+private def nv_P : Tensor Bool := ⟨[2, 1], [true, false]⟩
+private def nv_Q : Tensor Bool := ⟨[1, 3], [true, false, true]⟩
+
 /-- an error is reported iff the shapes are not broadcast-compatible (Add Sub Mul Div, comparisons) -/
 theorem binary_ok_iff (f : α → α → β) (A B : Tensor α) :
     (applyBinary f .multi A B).isOk = Compatible A.shape B.shape := Proofs.binary_ok_iff f A B
@@ -20,11 +27,19 @@ theorem binary_ok_iff (f : α → α → β) (A B : Tensor α) :
 theorem binary_error (f : α → α → β) (A B : Tensor α) (h : Compatible A.shape B.shape = false) :
     applyBinary f .multi A B = .error .broadcast := Proofs.binary_error f A B h
 
+-- non-vacuity: 2×3 against 2×2
+example : applyBinary (fun a b : Int => a + b) .multi nv_A nv_C = .error .broadcast :=
+  binary_error _ nv_A nv_C (by decide)
+
 /-- the output has the broadcast shape and each element is the scalar operation applied to the
 correspondingly broadcast input elements -/
 theorem binary_eq_spec (f : α → α → β) (A B : Tensor α) (hA : Pos A.shape) (hB : Pos B.shape)
     (hAW : A.WF) (hBW : B.WF) (t : Tensor β) (h : applyBinary f .multi A B = .ok t) :
     ∃ s, Spec.binary f A B = some s ∧ Equiv t s := Proofs.binary_eq_spec f A B hA hB hAW hBW t h
+
+-- non-vacuity: 2×3 plus a row of 3 (B is stretched along axis 0)
+example : ∃ s, Spec.binary (fun a b : Int => a + b) nv_A nv_B = some s ∧ Equiv ⟨[2, 3], [11, 22, 33, 14, 25, 36]⟩ s :=
+  binary_eq_spec _ nv_A nv_B (by simp [Proofs.Pos, nv_A]) (by simp [Proofs.Pos, nv_B]) rfl rfl _ (by decide)
 
 theorem boolean_ok_iff (f : α → α → α) (A B : Tensor α) :
     (applyBooleanOp f A B).isOk = Compatible A.shape B.shape := Proofs.boolean_ok_iff f A B
@@ -33,18 +48,35 @@ theorem boolean_eq_spec (f : α → α → α) (A B : Tensor α) (hA : Pos A.sha
     (hAW : A.WF) (hBW : B.WF) (t : Tensor α) (h : applyBooleanOp f A B = .ok t) :
     ∃ s, Spec.binary f A B = some s ∧ Equiv t s := Proofs.boolean_eq_spec f A B hA hB hAW hBW t h
 
+-- non-vacuity: a 2×1 column and a 1×3 row, both stretched
+example : ∃ s, Spec.binary (fun a b : Bool => a && b) nv_P nv_Q = some s ∧ Equiv ⟨[2, 3], [true, false, true, false, false, false]⟩ s :=
+  boolean_eq_spec _ nv_P nv_Q (by simp [Proofs.Pos, nv_P]) (by simp [Proofs.Pos, nv_Q]) rfl rfl _ (by decide)
+
 theorem binaryM_eq_spec (f : α → α → Option β) (g : α → α → β) (A B : Tensor α) (hA : Pos A.shape) (hB : Pos B.shape)
     (hAW : A.WF) (hBW : B.WF) (hfg : ∀ a b, f a b = some (g a b)) (t : Tensor β)
     (h : applyBinaryM f A B = .ok t) :
     ∃ s, Spec.binary g A B = some s ∧ Equiv t s := Proofs.binaryM_eq_spec f g A B hA hB hAW hBW hfg t h
 
+-- non-vacuity: a fallible kernel that never fails
+example : ∃ s, Spec.binary (fun a b : Int => a - b) nv_A nv_B = some s ∧ Equiv ⟨[2, 3], [-9, -18, -27, -6, -15, -24]⟩ s :=
+  binaryM_eq_spec (fun a b : Int => some (a - b)) (fun a b => a - b) nv_A nv_B (by simp [Proofs.Pos, nv_A]) (by simp [Proofs.Pos, nv_B]) rfl rfl
+    (fun _ _ => rfl) _ (by decide)
+
 theorem binaryM_ok_of_total (f : α → α → Option β) (g : α → α → β) (A B : Tensor α)
     (hfg : ∀ a b, f a b = some (g a b)) :
     (applyBinaryM f A B).isOk = Compatible A.shape B.shape := Proofs.binaryM_ok_of_total f g A B hfg
 
+-- non-vacuity
+example : (applyBinaryM (fun a b : Int => some (a - b)) nv_A nv_B).isOk = Compatible nv_A.shape nv_B.shape :=
+  binaryM_ok_of_total (fun a b : Int => some (a - b)) (fun a b => a - b) nv_A nv_B (fun _ _ => rfl)
+
 theorem binaryM_error_incompatible (f : α → α → Option β) (A B : Tensor α)
     (h : Compatible A.shape B.shape = false) : applyBinaryM f A B = .error .broadcast :=
   Proofs.binaryM_error_incompatible f A B h
+
+-- non-vacuity: integer division, 2×3 against 2×2
+example : applyBinaryM (fun a b : Int => if b = 0 then none else some (a / b)) nv_A nv_C = .error .broadcast :=
+  binaryM_error_incompatible _ nv_A nv_C (by decide)
 
 /-- **Obligation over the regenerated registry:** float32, float64, int32 and int64 pass the gate of
 the arithmetic and comparison operators at both positions, bool that of the logic operators — they
